@@ -78,6 +78,13 @@ CHECKS["C06"] = dict(
     design_ref="3/C06",
 )
 
+CHECKS["C07"] = dict(
+    technique="small-scope exhaustion: all set partitions (grouped form) and all 2^m border patterns (border form) on small graphs/grids decided on the posted encoding by an independent solver against the definition",
+    text="Grouped form: for every labelled simple graph on <=4 vertices, a derived sample of 5/6-vertex graphs and grid shapes with h*w<=6, with size specifications absent / constant / shared IntVar / per-vertex list with None holes / IntArray1D-2D / 2-D lists (with shape inference), every set partition is imposed on the returned ids as pairwise ==/!= and decided; SAT iff blocks connected and sizes met. Border form: all 2^m border patterns (m<=10) x sizes x {rank, native graph-division atom}, explicit graphs and BoolInnerGridFrame+IntArray2D; SAT iff components meet the sizes and no border lies inside a component. Exhaustive within the scope.",
+    note="Trusted base: vlib/graphref, vlib/refz3 (CEGAR for the native atom). 12/12 sensitivity mutants caught (one design-list mutant, '>' -> '>=' in the subtree sum, is equivalent because active edges already join different ranks; replaced).",
+    design_ref="3/C07",
+)
+
 NOT_BUILT_REASON = "check not built yet in this session (planned in DESIGN.md section 3); not claimed until it runs quietly and is mutation-tested"
 
 def main():
